@@ -347,6 +347,9 @@ func selfCheck() error {
 		want(refStream("CS", body("frame2")).OK && refStream("BD", body("frame1")).OK && refStream("SS", body("frame1")).OK && refStream("CS", body("empty")).OK, "valid streams are OK"),
 		want(!refStream("SS", body("frame2")).OK && !refStream("SS", body("empty")).OK, "server-stream needs exactly one message"),
 		want(refStream("CS", body("frame1-err")).Code == 9 && refStream("SS", body("frame1-err")).Code == 9, "error-requesting message"),
+		want(refStream("CS", body("frame-err-binmsg")).Msg == "fail: k\xff\xfe" && len(refStream("CS", body("frame-err-binmsg")).Data) == 0, "error with a non-UTF-8 status message before any data"),
+		want(len(refStream("CS", body("frame-err-binmsg-after-data")).Data) == 1 && len(refStream("SS", body("frame-err-binmsg-after-data")).Data) == 2 && len(refStream("BD", body("frame1+frame-err-binmsg-after-data")).Data) == 2, "error with a non-UTF-8 status message after data"),
+		want(refStream("BD", body("frame-err-text-after-data")).Msg == "fail: who" && refStream("SS", body("frame-err-text-after-data")).Code == 5, "error with a text status message after data"),
 	)
 	for _, n := range []string{"garbage", "frame-short", "frame-garbage", "frame-negative", "frame-maxint", "frame-over-limit", "frame-64k-short", "half-prefix", "frame1+half-prefix", "frame1+frame-garbage", "pb", "json"} {
 		for _, k := range []string{"CS", "SS", "BD"} {
@@ -454,7 +457,7 @@ func main() {
 		samples = samples[:40]
 	}
 
-	rule := "request grammar = cfg{srv, mux(HandleServices), srv+/api base+interceptors, mux+/api base+interceptors} x path{4 registered methods (one per kind), 14-15 unregistered/non-canonical} x method{POST,GET,HEAD,PUT,DELETE,OPTIONS,PATCH,post,CONNECT} x Content-Type{23 strings} x header set{13} x body{24}; " +
+	rule := "request grammar = cfg{srv, mux(HandleServices), srv+/api base+interceptors, mux+/api base+interceptors} x path{4 registered methods (one per kind), 14-15 unregistered/non-canonical} x method{POST,GET,HEAD,PUT,DELETE,OPTIONS,PATCH,post,CONNECT} x Content-Type{" + fmt.Sprint(len(cts)) + " strings} x header set{" + fmt.Sprint(len(hdrs)) + "} x body{" + fmt.Sprint(len(bodies)) + "}; " +
 		"each request is served by the real handler tree on a recorder and judged by a reference function of the literal request. "
 	if exhaustive {
 		rule += "Thorough tier: the full product. "
@@ -481,7 +484,8 @@ func main() {
 		"handlers are well-behaved (propagate receive/decode errors, echo only x-echo* request metadata into response headers and trailers)",
 		"Content-Type strings that name a supported type in a different spelling (case, parameters, malformed parameters), unpadded base64 in -bin headers and GRPC-Timeout values outside the wire grammar may be refused (415/400, no application code) or accepted: the statement does not settle them",
 		"error details of a unary JSON request are accepted in either the documented encoding (base64 of a binary Any) or the request's codec (base64 of a JSON Any); the latter is counted under notes",
-		"when the handler's trailer metadata cannot be carried by HttpTrailer (an echoed value that is not valid UTF-8), any non-OK trailer status is accepted besides the handler's own outcome (reporting an unencodable response as an error is C02's demand; the lost metadata is C03's); the reply must still end with exactly one trailer frame",
+		"streaming handlers quote the payload of an error-requesting message in their status message and may send data frames before failing",
+		"when the handler's trailer metadata or status message cannot be carried by HttpTrailer (an echoed value / a quoted payload that is not valid UTF-8), any non-OK trailer status is accepted besides the handler's own outcome (reporting an unencodable response as an error is C02's demand; the lost metadata is C03's); the reply must still end with exactly one trailer frame",
 		"request frames announcing up to 100 MiB are not sent with their full payload (largest announced size actually allocated by the server: 64 KiB)",
 	}))
 }
